@@ -123,3 +123,15 @@ class Tree:
             for n in dirs + files:
                 out.append((rel + '/' if rel else '') + n)
         return sorted(out)
+
+
+def link_is_written(spec, path, pattern_text):
+    """True iff some component of `path` is a symlink of the tree whose NAME the pattern writes literally (then walking through it is 'as written',
+    and a matcher that reads the same text with another decomposition may see the link inside a `**`)."""
+    import re
+    names = set(re.findall(r'[A-Za-z0-9_.]+', pattern_text))
+    parts = path.rstrip('/').split('/')
+    for i in range(1, len(parts) + 1):
+        if isinstance(spec.get('/'.join(parts[:i])), tuple) and parts[i - 1] in names:
+            return True
+    return False
